@@ -1234,6 +1234,52 @@ def m_set_iter_next(interp, path, args, ret_ty, callee):
     return EnumV(ret_ty, 1, {1: [_ConstRef("&T", it.fields[0])]})
 
 
+@model(r"^(IndexSet|BTreeSet|HashSet)::<.*>::difference(::<.*>)?$", "lazy set difference (elements of a not in b)")
+def m_set_difference(interp, path, args, ret_ty, callee):
+    a, b = deref(interp, path, args[0]), deref(interp, path, args[1])
+    if not (_is_entry_set(a) and _is_entry_set(b)):
+        raise Refuse("difference of %r and %r" % (a, b))
+    return StructV("SetDiffIter", [StructV("rest", list(a.fields)), b])
+
+
+@model(r"^<(set::|btree_set::|hash_set::)?Difference<.*> as Iterator>::next$",
+       "next element of the first set that is not in the second (forks on membership)")
+def m_set_difference_next(interp, path, args, ret_ty, callee):
+    from .interp import _ConstRef
+    r = args[0]
+    if r.kind != "ref" or hasattr(r, "target"):
+        raise Refuse("Iterator::next needs a reference to the iterator place")
+    outs = []
+    work = [path]
+    while work:
+        p = work.pop()
+        it = interp.read(p, r.fid, r.local, r.projs)
+        if it.kind != "struct" or it.ty != "SetDiffIter":
+            raise Refuse("Iterator::next on %r" % (it,))
+        rest, b = it.fields[0].fields, it.fields[1]
+        if not rest:
+            outs.append(Outcome(p, "ret", EnumV(ret_ty, 0, {0: []})))
+            continue
+        e = rest[0]
+        inb = z3.Or([val_eq(x, e) for x in b.fields]) if b.fields else z3.BoolVal(False)
+        for p2, tag in interp.fork(p, [(inb, "skip"), (z3.Not(inb), "yield")]):
+            interp.write(p2, r.fid, r.local, r.projs, StructV("SetDiffIter", [StructV("rest", rest[1:]), b]))
+            if tag == "skip":
+                work.append(p2)
+            else:
+                outs.append(Outcome(p2, "ret", EnumV(ret_ty, 1, {1: [_ConstRef("&T", e)]})))
+    return outs
+
+
+@model(r"^(IndexSet|BTreeSet|HashSet)::<.*>::is_subset(::<.*>)?$", "every element of a is in b")
+def m_set_is_subset(interp, path, args, ret_ty, callee):
+    a, b = deref(interp, path, args[0]), deref(interp, path, args[1])
+    if not (_is_entry_set(a) and _is_entry_set(b)):
+        raise Refuse("is_subset of %r and %r" % (a, b))
+    cs = [z3.Or([val_eq(x, e) for x in b.fields]) if b.fields else z3.BoolVal(False) for e in a.fields]
+    return BoolV(z3.And(cs) if cs else z3.BoolVal(True))
+
+
 @model(r"^(IndexSet|BTreeSet|HashSet)::<.*>::(swap_remove|shift_remove|remove)(::<.*>)?$",
        "true and the slot becomes free when the element is present, else false")
 def m_set_remove(interp, path, args, ret_ty, callee):
@@ -1338,6 +1384,21 @@ def m_mem_replace(interp, path, args, ret_ty, callee):
     old = interp.read(path, r.fid, r.local, r.projs)
     interp.write(path, r.fid, r.local, r.projs, args[1])
     return old
+
+
+@model(r"^<&(.+) as (PartialOrd|PartialEq|Ord)(<&.+>)?>::(partial_cmp|cmp|eq|ne|lt|le|gt|ge)$",
+       "std impls of the comparison traits for references: forward to the referent's impl")
+def m_ref_cmp_forward(interp, path, args, ret_ty, callee):
+    m = re.match(r"^<&(.+) as (PartialOrd|PartialEq|Ord)(<&.+>)?>::(\w+)$", canon(callee))
+    t, trait, meth = m.group(1), m.group(2), m.group(4)
+
+    def one_level(v):
+        if hasattr(v, "target"):
+            return v.target
+        if v.kind == "ref":
+            return interp.read(path, v.fid, v.local, v.projs)
+        raise Refuse("comparison of references on %r" % (v,))
+    return interp.call_named(path, "<%s as %s>::%s" % (t, trait, meth), [one_level(a) for a in args], ret_ty)
 
 
 # ---------------------------------------------------------------- std blanket conversions
